@@ -184,6 +184,26 @@ def h_long(ctx, which, n, pos, k=1, byteorder=None):
     ctx.require(out == ref_crc(which, data, byteorder), f'{which}: whole function on long inputs with a symbolic byte')
 
 
+def h_history(ctx, which, n, k=1):
+    """the checksum is a function of (data, byte order) alone: a sequence of calls in one process - the same data in the
+    other byte order, different data of the same length, the same data again - each equals the bitwise definition
+    (a result cache keyed on less than all arguments, or any other state carried between calls, shows here)"""
+    from pytoniq_core.crypto import crc as crcmod
+    filler = bytes((i * 91 + 7) & 0xff for i in range(n))
+    d1 = filler[:n - k] + ctx.bytes_('d1', k)
+    d2 = filler[:n - k] + ctx.bytes_('d2', k)
+    fn = getattr(crcmod, which)
+    orders = (None,) if which == 'crc16' else (None, 'big', 'little')
+    calls = []
+    for d in (d1, d2, d1):
+        for o in orders:
+            calls.append((d, o))
+    calls += [(d1, orders[-1]), (d1, orders[0]), (d2, orders[-1]), (b'', orders[0]), (d1, orders[0])]
+    for i, (d, o) in enumerate(calls):
+        out = fn(d) if o is None else fn(d, o)
+        ctx.require(out == ref_crc(which, d, o), f'{which}: call sequence - every call equals the bitwise definition')
+
+
 def h_vectors(ctx, which):
     """published check values (validates the oracle itself): CRC of b'123456789'"""
     from pytoniq_core.crypto import crc as crcmod
@@ -221,6 +241,11 @@ def instances(tier, seed):
         yield 'h_long', dict(which=which, n=68, pos=66, k=1, byteorder='big' if which == 'crc32c' else None)
 
 
+    for which in ('crc16', 'crc32c'):
+        for n in (1, 2, 34, 36, 64, 70):
+            yield 'h_history', dict(which=which, n=n, k=1)
+
+
 def twins(tier, seed):
     for which in ('crc16', 'crc32c'):
         if slice_fold(which) is not None:
@@ -236,6 +261,8 @@ BOUNDS = {
     'technique A with filler (h_long)': 'inputs of 3..1024 (thorough ..9878) bytes at block-size boundaries, one symbolic byte at the first/middle/last position (crc32c: last or last but one; crc16: at most 64 bytes before the end), concrete filler elsewhere',
     'fold_shape_recognised': {w: slice_fold(w) is not None for w in SPEC},
 }
+BOUNDS['call sequences (h_history)'] = ('13 (crc32c) / 8 (crc16) calls in one process over two inputs of 1, 2, 34, 36, 64, 70 bytes whose last byte is '
+                                         'symbolic, both byte orders interleaved, the empty input in between')
 OUTSIDE = ['if the fold shape is not recognised only the bounded whole-function claim is made']
 STUBS = []
 ASSUMPTIONS = ['CPython semantics of for-loops over bytes (one iteration per byte, in order)',
